@@ -2,10 +2,10 @@
 import re
 from collections import Counter
 
-from sim.chart import Cfg, swarm, gen_spec, cond_code, tid, HIST
+from sim.chart import Cfg, swarm, gen_spec, cond_code, tid, HIST, build_api
 from sim.engine import Result, Abandon, fp
 from sim.probes import ev
-from sim.semrun import Sim, standard_ops, replay_script, legal_or_abandon
+from sim.semrun import Sim, standard_ops, replay_script, legal_or_abandon, materialise
 from sim.checks import common
 
 from sismic import exceptions as sx
@@ -15,7 +15,7 @@ LEVEL = 'fault_enumeration'
 RUN_LIMIT_CPU_S = 600     # one run enumerates hundreds of fault positions in the thorough tier
 BUDGET = {'quick': 25, 'thorough': 300}
 BLOCK = 10
-STREAM_ORDER = ['ops', 'guards', 'faults', 'chart', 'cfg']
+STREAM_ORDER = ['ops', 'guards', 'faults', 'mat', 'chart', 'cfg']
 RULE = (common.GEN + 'every state (all kinds, history and final included) and transition carries 0-3 conditions of each kind, each a probe '
         'P.cond(j, v, __old__, event) - a third of them also logs sent(na), sent(ea) and received(ea), which are compared with the events the returned micro steps sent so far (in half of the runs code sends and notifies) -; code modifies the context variable v; a third of the guarded transitions have no action at all (their conditions are due all the same). Twin runs: run A (all conditions true) is checked against the '
         'interleaving of code and contract probes implied by the returned micro steps and against the model value of v / __old__.v; then '
@@ -128,12 +128,14 @@ def run(ch, tier):
     own = owners(sp)
     cfp = fp(sp.fingerprint())
     # ---------------- run A: all conditions hold
-    sim = Sim(sp, ignore_contract=False)
+    # one statechart object for all the twins of this run: usually built through the API, now and then through the editing API
+    # or from a YAML document (the importer has to carry the contracts of every kind of state)
+    sc0 = materialise(sp, ch, res) or build_api(sp)
+    sim = Sim(sp, ignore_contract=False, statechart=sc0)
     # in a third of the runs another interpreter of the same statechart (same state and transition names, other values
     # of the variables) is alive and stepped in between: interpreters share nothing, so this must not be observable
     shadow = None
     if ch.s('cfg').flag(1, 3):
-        from sim.chart import build_api
         shadow = Sim(sp, ignore_contract=False, statechart=build_api(sp, preamble='v = 500\nw = [1, 2, 3]\nu = [[7]]\nbox = P.newbox(9)'))
         res.stats['runs_with_a_second_live_interpreter_of_the_same_chart'] += 1
     vm = VModel()
@@ -230,7 +232,7 @@ def run(ch, tier):
     for k in ks:
         entry = next(e for e in L if e[0] == 'cond' and e[5] == k)
         label, kind, is_t, key = own[entry[1]]
-        simb = Sim(sp, ignore_contract=False)
+        simb = Sim(sp, ignore_contract=False, statechart=sc0)
         simb.P.fail_at = k
         heard = []
         simb.it.attach(lambda me, _s=simb: heard.append((me.name, me.data.get('state'), len(_s.P.log))))
